@@ -19,6 +19,10 @@ type definition struct { //nolint:maligned для удобочитаемости
 }
 
 func ParseSchema(source string) (*Schema, error) {
+	// comment takes everything up to the end of line: last line of file can be a comment too, with or without newline
+	if !strings.HasSuffix(source, "\n") {
+		source += "\n"
+	}
 	cur := NewCursor(source)
 
 	var (
